@@ -242,7 +242,7 @@ def build_function(api, owner, shape: int, names: Names, *, method_kind: int = 0
 
 
 # ------------------------------------------------------------------------------------------------------------- classes
-N_CLS_SHAPES = 12
+N_CLS_SHAPES = 13
 
 
 def build_class(api, module, shape: int, names: Names, *, docs: bool = False, other=None, name: str | None = None,
@@ -266,6 +266,8 @@ def build_class(api, module, shape: int, names: Names, *, docs: bool = False, ot
     elif shape == 9:
         kw["exception"] = True
         supers = ["builtins.ValueError"]
+    elif shape == 12:  # a type parameter whose bound needs a marker of its own (tuple), on a class with members
+        tparams = [TypeParameter(names.get("tpv"), TupleType([INT, STR]), VarianceKind.COVARIANT)]
     c = mk_class(api, owner, cname, public=public, supers=supers, doc=f"Doc of {cname}." if docs else "",
                  type_parameters=tparams, **kw)
     ref = NamedType(other.name, other_q) if other is not None else None
@@ -298,6 +300,9 @@ def build_class(api, module, shape: int, names: Names, *, docs: bool = False, ot
         inner = build_class(api, module, 2, names, docs=docs, owner=c)
         build_class(api, module, 0, names, owner=inner)
         build_class(api, module, 3, names, owner=c, name="_Priv", public=False)
+    elif shape == 12:
+        mk_attr(api, c, names.get("att"), INT, static=True)
+        build_function(api, c, 1, names, method_kind=1, docs=docs)
     elif shape == 11:
         mk_attr(api, c, names.get("att"), type_shape(12), static=True)
         mk_attr(api, c, names.get("att"), type_shape(9, ref), static=False)
